@@ -52,7 +52,7 @@ def run_one(p):
     rec = ScriptedFit(model, scores=p['scores'])
     model.fit((X, y), (Xv, yv), iters=p['iters'], reg=p['lam'], return_best_params=p['return_best'],
               early_stop_rfm=p['early'], early_stop_multiplier=p['mult'], verbose=False, solver=p['solver'],
-              M_batch_size=p.get('mbs'))
+              M_batch_size=p.get('mbs'), get_agop_best_model=bool(p.get('agop_best')))
     tags = rec.tags()
     # --- property oracle on the stored state ---------------------------------------------------
     alpha = model.weights.detach().double().numpy()
@@ -152,6 +152,9 @@ def gen_cases(run):
         if c['scores'] is not None and r.random() < 0.35:
             c['maximize'] = True
             c['scores'] = [6.0 - s for s in c['scores']]
+    # the AGOP of the selected model, computed after the restore and "not in place" (what every xRFM leaf fit asks for)
+    for c in cases:
+        c['agop_best'] = r.random() < 0.5
     for c in cases:  # lpq needs q <= p; fix up
         if c['kernel'][0] == 'lpq':
             c['q'] = min(c['q'], c['kernel'][1]['norm_p'])
